@@ -34,13 +34,13 @@ PROPS['C11'] = dict(
     rule='Every rank generates the same global matrices A (n x k) and B (k x m) from the case seed and keeps the row slice given by a contiguous row partition; columns follow an independent contiguous partition. '
          'exhaustive: every (row partition, column partition) pair, empty ranks included, of integer-valued matrices with n,k <= 4 (quick) / <= 6 (thorough; quick takes a 1-in-7 sample of the pairs for sizes 5-6) on 1-4 ranks, '
          'each pair with a fresh random pattern. random: n,k,m <= 60, four partition styles (balanced, random cuts, forced empty ranks, everything on one rank), 60 % integer-valued (exact oracle) and 40 % real-valued (forward bound). '
-         'In addition every random job on >= 2 ranks runs 3 (quick) / 10 (thorough) large-interface cases: two ranks own 1500-2600 rows each and every row of one couples to a distinct row of the other (integer data), so that one neighbour requests >= 1500 rows and the messages of remote_rows / product / transpose leave the eager path of the transport; remote_rows (with and without values) is checked rank-locally, product and transpose against exact sparse references. '
+         'In addition every random job on >= 2 ranks runs 4 (quick) / 12 (thorough) large-interface cases (every second one one-way: only rank a needs values of rank b, so b sends ghost values and receives none; two matrix-vector products in a row with different vectors, the receiver entering the first exchange 50-200 ms late through the exchange hook): two ranks own 1500-2600 rows each and every row of one couples to a distinct row of the other (integer data), so that one neighbour requests >= 1500 rows and the messages of remote_rows / product / transpose leave the eager path of the transport; remote_rows (with and without values) is checked rank-locally, product and transpose against exact sparse references. '
          'A case is non-trivial when the operands store at least one entry; distinct = distinct (sub-check, descriptor) hash; one exhaustive case covers one row partition with all its column partitions.',
     # oracle history: 'power*:finite' (power-method estimate finite and >= 0) was dropped -- stricter than the property, which only
     # asks for rank-identical values; it fired on a 2x2 zero-row-sum matrix with one row per rank (NaN on every rank).
     exhaustive_note='all (row partition, column partition) pairs for global sizes <= 4 (quick) / <= 6 (thorough) on 1..4 ranks, sub-check "exhaustive"',
     min_nontrivial=dict(quick=300, thorough=1500),
-    require_obs=dict(quick=['large_interface_cases', 'partitions_checked', 'delays_injected', 'cases_with_empty_ranks'], thorough=['large_interface_cases', 'partitions_checked', 'delays_injected', 'cases_with_empty_ranks']),
+    require_obs=dict(quick=['large_interface_cases', 'one_way_large_interface_cases', 'partitions_checked', 'delays_injected', 'cases_with_empty_ranks'], thorough=['large_interface_cases', 'one_way_large_interface_cases', 'partitions_checked', 'delays_injected', 'cases_with_empty_ranks']),
     assumptions=COMMON_ASSUME + ['Open MPI 4.1.4 on one node (shared-memory transport, oversubscribed); message arrival orders are those this runtime produces, diversified by rank-seeded delays before every ghost exchange',
                                   'rank counts above 8 and non-builtin backends are not explored'],
     technique='reference-model oracle under mpirun: results of the real amgcl::mpi kernels are gathered on rank 0 and compared with dense long-double definitions (exact on integer data), plus rank-local structural monitors and ASan/UBSan builds',
